@@ -51,9 +51,9 @@ def one(pid, v):
             shutil.copy(os.path.join(src, "demo.py"), d)
             notes = open(os.path.join(src, "notes.txt")).read() if os.path.exists(os.path.join(src, "notes.txt")) else ""
             meta = {
-                "property": pid, "title": PROPS[pid]["title"], "variant": RENAME.get(v, v), "source": "independent sub-agent given only the property text (and, in round 2, one-line summaries of the round-1 changes to avoid) and a scratch worktree",
+                "property": pid, "title": PROPS[pid]["title"], "variant": RENAME.get(v, v), "source": "independent sub-agent given only the property text (and, in rounds 2-3, one-line summaries of the earlier changes to avoid) and a scratch worktree",
                 "what_it_needs_to_manifest": notes.strip(),
-                "confirmed_by": "tools/confirm_seeded.py on a scratch copy of /repo (HEAD incl. the five fix: commits)",
+                "confirmed_by": "tools/confirm_seeded.py on a scratch copy of /repo (HEAD incl. the fix: commits)",
                 "ran": {"demo_on_unchanged_copy_rc": res["demo_clean_rc"], "demo_on_patched_copy_rc": res["demo_patched_rc"],
                         "demo_patched_output_tail": res["demo_patched_tail"], "baseline_on_patched_copy": res["baseline"]},
             }
